@@ -40,7 +40,7 @@ Definition set_minifat (index value : N) : M unit :=
   if lenN (minifat s) <? index then panic 502 else
   do c <- chain_new (minifat_start s) IFat;
   let off := index * 4 in
-  if chain_len (slen s) c <? off + 4 then panic 503 else       (* debug_assert!(chain.len() >= offset + 4) *)
+  if chain_len (slen s) c <? off + 4 then fail EInvalidData else       (* the MiniFAT chain was cut short *)
   do c <- chain_seek c off;
   do _ <- chain_write_all c (le_bytes 4 value);
   modify (fun s => w_minifat s (if index =? lenN (minifat s) then minifat s ++ [value]
